@@ -32,7 +32,7 @@ var c02Keys = []string{"a", "b", "d/x", "d/y", "d/e/z", "f.txt"}
 // of others is ("d"): storable next to them on the key-value backends, outside the key domain
 // of the file system backends while the other key is live (refused there, and reading or
 // deleting them is still NoSuchKey / a no-op). Drawn less often; always read by the invariant.
-var c02NestedKeys = []string{"a/q", "d", "d_x"} // "d_x": what "d/x" looks like with its separator flattened (metadata file names of the fs backends)
+var c02NestedKeys = []string{"a/q", "d", "d_x", "a/q/r/s", "d/x/deep/er"} // "d_x": what "d/x" looks like with its separator flattened (metadata file names of the fs backends)
 var c02Universe = append(append([]string{}, c02Keys...), c02NestedKeys...)
 
 func c02GenKey(rt *rapid.T, label string) string {
